@@ -214,7 +214,7 @@ func (fx *FuncCtx) define(prefix, sortName, term string) string {
 	}
 	n := fx.fresh(prefix)
 	fx.symLine[n] = len(fx.lines)
-	if strings.HasPrefix(sortName, "(Array ") {
+	if strings.HasPrefix(sortName, "(Array ") || strings.Contains(term, "(ite ") {
 		// heap components stay constants (not macros): they occur in quantifier
 		// patterns, where an expanded ite/and would make the pattern illegal
 		fx.emit(fmt.Sprintf("(declare-const %s %s)", n, sortName))
@@ -254,7 +254,12 @@ func (fx *FuncCtx) oblige(st *State, kind, label, goal string, pos token.Pos, st
 		fx.obls = append(fx.obls, ob)
 	}
 	if strengthen && goal != "true" {
-		st.R = fx.define("R", "Bool", and(st.R, goal))
+		if strings.Contains(goal, "(forall ") || strings.Contains(goal, "(exists ") {
+			// checked, then assumed as a fact: keeps quantifiers out of the path conditions
+			fx.emit("(assert " + imp(st.R, goal) + ")")
+		} else {
+			st.R = fx.define("R", "Bool", and(st.R, goal))
+		}
 	}
 	return ob
 }
